@@ -200,6 +200,8 @@ def prepare(prop, tier, seed, only=None):
             c['file'] = n
             _ST['prep_cross'].append(c)
     _ST['names'] = sorted(_ST['prep'])
+    # completion order of the preparation children must not leak into the run index space
+    _ST['prep_cross'].sort(key=lambda c: (c['file'], c['key'], json.dumps(c['op'])))
     _ST['tier'] = tier
     npairs = 0
     _ST['n_random'] = (9000 if prop == 'C10' else 5000) if tier == 'quick' else (150000 if prop == 'C10' else 60000)
